@@ -2,5 +2,9 @@ CONSTANTS
   Threads = {1, 2}
   MaxTasks = 6
   MaxGen = 3
+  MaxHeld = 1
+  Controllers = {1, 2}
+  Submitters = {1, 2}
+  Ops = {"Start", "Shutdown", "WaitShutdown", "WaitIsZero", "Submit", "SubmitBegin", "SubmitEnd", "Release"}
   WorkerCounts = {1, 2, 3}
 INVARIANTS TypeOK Conservation NoIdleWithWork WaitersJustified ShutdownCompletes
